@@ -11,7 +11,9 @@ operator entries (evolution.evolop / evolopns), the couplings and c1dvcs.C1 pass
 Oracle streams (the property evaluated on the real code against closed forms — what no theorem carries, i.e.
 the accuracy of the 96-point contour sum): input-scale Hx vs the closed-form PDFs for every p and scheme,
 LO F2 = charge·x·Σ(x) at every Q², total momentum and the LO DGLAP solution for the second moments,
-gluon-only input radiates quarks.  They support the theorems, they do not replace them.
+gluon-only input radiates quarks (NLO msbar included: a few input-scale cases and one momentum sum per run — see the
+known finding momentum/msbar-nlo/forward-nd-term); one object of the combined GPD+CFF+DIS+DVMP class evaluating several
+observables at one Q² in either order against fresh objects.  They support the theorems, they do not replace them.
 
 The helpers of this file are shared with harness/props/C05.py.
 """
@@ -170,6 +172,14 @@ def pw_tokens(m):
     return hexes(np.asarray(m, dtype=float).reshape(-1))
 
 
+def in_real_code(e):
+    """True when the exception was raised in a frame of the package under study (not in the harness)"""
+    import os
+    import traceback
+    src = os.path.join(common.REPO, 'src')
+    return any(f.filename.startswith(src) for f in traceback.extract_tb(e.__traceback__))
+
+
 def sdiv(a, b):
     """a / b, inf when b is 0 (quantities of a possibly broken tree)"""
     return a / b if b else float('inf')
@@ -194,7 +204,7 @@ def j2x_scale(th, x, eta, Q2, pd, gpd, pw):
     the operator data (not from calc_j2x, whose result is what is being checked)"""
     import numpy as np
     if pd is None:
-        pd = point_data(th, Q2, 'DVCS')
+        pd = point_data(th, Q2, 'DIS' if eta < 1e-8 else 'DVCS')
     asf, _ = couplings(th, Q2)
     cf = np.abs(np.exp((th.jpoints + 1) * math.log(1 / x)))
     E = np.abs(pd['E0']) + abs(asf) * np.abs(pd['E1'])            # [s, k, f, a]
@@ -402,8 +412,10 @@ def run(rep):
         rep.hist('log10(x)', int(math.floor(math.log10(x))))
         rep.hist('Q2/Q02', 'input scale' if Q2 == Q02 else '%d-decade' % int(math.floor(math.log10(Q2 / Q02))))
         rep.hist('contour', ('default' if (phi == PHI0 and c == C0) else 'varied'))
-        pd = point_data(th, Q2, 'DVCS')
-        ptoks = points_tokens(pd['arr'])
+        # the operator of the x-space transform: diagonal (DGLAP, process class 'DIS') in the forward limit, the DVCS one
+        # (with the non-diagonal msbar term at NLO) on the cross-over line; they differ only at NLO msbar
+        pd_x = point_data(th, Q2, 'DVCS')
+        pd_0 = point_data(th, Q2, 'DIS') if (p, scheme) == (1, 'msbar') else pd_x
         only_h0 = (p, scheme) == (1, 'msbar')      # one Hx costs 2 s there (non-diagonal msbar evolution)
         todo = [('H', 0.0, 0.0)] if only_h0 else [('H', 0.0, 0.0), ('H', x, t), ('E', x, t), ('E', 0.0, t)]
         if not only_h0 and rng.random() < 0.3:
@@ -421,8 +433,9 @@ def run(rep):
                 mtok = [f2hex(th.parameters['kaps']), f2hex(th.parameters['ns'])] + par_tokens(th, E_KEYS)
             else:
                 mtok = par_tokens(th, H_KEYS)
+            pd = pd_0 if eta < 1e-8 else pd_x
             line = ' '.join(['c04.x', str(p), str(RT[rt]), '1' if isE else '0', '|'] +
-                            hexes([asf, phi, x, eta, tt]) + pw_tokens(pw) + mtok + ['|'] + ptoks)
+                            hexes([asf, phi, x, eta, tt]) + pw_tokens(pw) + mtok + ['|'] + points_tokens(pd['arr']))
             if isinstance(code, str):
                 sc = []
             else:
@@ -461,7 +474,7 @@ def run(rep):
         t = rng.uniform(-0.8, 0)
         eta = rng.choice([0.0, x])
         asf, asr = couplings(th, Q2)
-        pd = point_data(th, Q2, 'DVCS')
+        pd = point_data(th, Q2, 'DIS' if eta < 1e-8 else 'DVCS')
         pre = th.H(eta, t)
         pw = th.pw_strengths()
         code = [float(v) for v in th.Hx(g.DataPoint({'x': x, 'eta': eta, 't': t, 'Q2': Q2}))]
@@ -501,40 +514,44 @@ def run(rep):
         q, xg = closed_pdfs(par, x)
         sq, sg = contour_scale(par, x, c)
         eq, eg = abs(hx[0] - q), abs(hx[1] - xg)
-        pole_right = max(par['al0s'], par['al0g']) - 1 >= c - 0.005
+        # the known finding input-scale/pole-right-of-contour concerns the component whose OWN leading pole j = al0-1 is not
+        # left of the crossing point c (at the input scale the evolution is the identity: the components do not mix)
+        right = dict(s=par['al0s'] - 1 >= c - 0.005, g=par['al0g'] - 1 >= c - 0.005)
         rep.case(stream, (p, scheme, x, c, par['ns'], par['al0s'], par['al0g']),
                  sample=dict(theory=kw, x=x, al0s=par['al0s'], al0g=par['al0g'], Hx=list(map(float, hx)), closed=[q, xg]))
-        if not pole_right:
-            track(stream + ' |Hx-closed|/(3e-4|closed|+1e-4 S)', max(eq / (TOLREL * q + TOLS * sq), eg / (TOLREL * xg + TOLS * sg)))
-            track(stream + ' rel (x>=1e-4)' if x >= 1e-4 else stream + ' rel (x<1e-4)', max(eq / q, eg / xg))
+        devs = dict(s=(eq, q, sq), g=(eg, xg, sg))
+        ok_parts = [comp for comp in 'sg' if not right[comp]]
+        if ok_parts:
+            track(stream + ' |Hx-closed|/(3e-4|closed|+1e-4 S)', max(devs[k_][0] / (TOLREL * devs[k_][1] + TOLS * devs[k_][2]) for k_ in ok_parts))
+            track(stream + ' rel (x>=1e-4)' if x >= 1e-4 else stream + ' rel (x<1e-4)', max(devs[k_][0] / devs[k_][1] for k_ in ok_parts))
         if abs(hx[2]) != 0:
             viol('input-scale/ns-component', 'Hx[2] = %r, not 0' % hx[2], kw, par, point, 'Hx')
-        badq = not eq <= TOLREL * q + TOLS * sq
-        badg = not eg <= TOLREL * xg + TOLS * sg
-        if badq or badg:
-            what = ('at the input scale Hx = (%.8g, %.8g) but the closed-form PDFs are (Σ, x·g) = (%.8g, %.8g): relative '
-                    'deviation (%.3g, %.3g); p=%d, %s, c=%g, x=%g, ns=%g, al0s=%g, al0g=%g' % (
-                        hx[0], hx[1], q, xg, eq / q, eg / xg, p, scheme, c, x, par['ns'], par['al0s'], par['al0g']))
-            if pole_right:
-                key = 'input-scale/pole-right-of-contour/' + ('g' if par['al0g'] >= par['al0s'] else 's')
-                what += ' — the leading Regge pole j = al0-1 = %g is not left of the contour crossing c = %g' % (
-                    max(par['al0s'], par['al0g']) - 1, c)
+        for comp, nm, al in (('s', 'quark singlet Σ', par['al0s']), ('g', 'gluon x·g', par['al0g'])):
+            e_, cl, S_ = devs[comp]
+            if e_ <= TOLREL * cl + TOLS * S_:
+                continue
+            what = ('at the input scale Hx = (%.8g, %.8g) but the closed-form PDFs are (Σ, x·g) = (%.8g, %.8g): the %s is off by '
+                    '%.3g relative (deviations (%.3g, %.3g)); p=%d, %s, c=%g, x=%g, ns=%g, al0s=%g, al0g=%g' % (
+                        hx[0], hx[1], q, xg, nm, e_ / cl, eq / q, eg / xg, p, scheme, c, x, par['ns'], par['al0s'], par['al0g']))
+            if right[comp]:
+                key = 'input-scale/pole-right-of-contour/' + comp
+                what += ' — its leading Regge pole j = al0-1 = %g is not left of the contour crossing c = %g' % (al - 1, c)
             else:
-                key = 'input-scale/%s/p=%d/%s' % (stream, p, scheme)
-            viol(key, what, kw, {k: par[k] for k in ('ns', 'al0s', 'al0g')}, point, 'Hx', closed_form=[q, xg],
+                key = 'input-scale/%s/%s/p=%d/%s' % (stream, comp, p, scheme)
+            viol(key, what, kw, {k: par[k] for k in ('ns', 'al0s', 'al0g')}, point, 'Hx', closed_form=[q, xg], component=comp,
                  tolerance='|Hx-closed| <= 3e-4 |closed| + 1e-4 x^-(c+1) |H_c|')
         return hx
 
     slim = lambda par: {k: par[k] for k in ('ns', 'al0s', 'al0g')}    # noqa: E731
     # 4a. default contour, the whole intercept domain of the property (al0g up to 1.4)
     n_in = 56 if quick else 800
-    n_slow = 1 if quick else 6
+    n_slow = 3 if quick else 10                      # NLO msbar costs 1.5 s per Hx (non-diagonal evolution): a few per run,
+    slow_at = {3 + k_ * ((n_in - 4) // n_slow) for k_ in range(n_slow)}      # spread over the run: parameters and x vary
     for i in range(n_in):
         p, scheme = combos[i % 4] if i < 4 else rng.choice(combos[:3])
-        if (p, scheme) == (1, 'msbar'):
-            if n_slow <= 0:
-                p, scheme = 1, 'csbar'
-            n_slow -= 1
+        if i in slow_at:
+            p, scheme = 1, 'msbar'
+        rep.hist('input-scale.theory', 'p=%d/%s' % (p, scheme))
         par = slim(random_pars(rng, al0g_max=1.4))
         if i == 5:
             par['al0g'] = rng.uniform(1.36, 1.4)
@@ -560,26 +577,54 @@ def run(rep):
         th.parameters.update(par)
         x = 10 ** rng.uniform(-5, math.log10(0.3))
         Q2 = 4.0 * ((1 + 10 ** rng.uniform(-3, -1.5)) if i % 4 == 1 else 10 ** rng.uniform(0, 2))
+        if i % 4 == 3:
+            Q2 = 4.0
+        # the theory object carries every Mellin-Barnes observable (class Th): in every other case it has already evaluated
+        # CFFs / a DVMP form factor / forward GPDs at this very Q2 (a combined DVCS + DIS analysis shares its Q2 bins)
+        hist = []
+        if i % 2 == 1:
+            for hk in (['cff'] if i % 4 == 1 else rng.sample(['cff', 'tff', 'Hx', 'cff'], 2)):
+                if hk == 'tff' and nf != 4:
+                    hk = 'cff'                 # MellinBarnesTFF asserts nf == 4
+                xi_ = 10 ** rng.uniform(-4, -0.6)
+                if hk == 'cff':
+                    th.cff(g.DataPoint({'xi': xi_, 't': -0.2, 'Q2': Q2}))
+                elif hk == 'tff':
+                    th.tff(xi_, -0.2, Q2)
+                else:
+                    th.Hx(g.DataPoint({'x': xi_, 'eta': xi_, 't': -0.2, 'Q2': Q2}))
+                hist.append('%s(xi=%r, t=-0.2, Q2=%r)' % (hk, xi_, Q2))
+        rep.hist('F2-LO.calls before on the same object', len(hist))
         f2 = float(th.DISF2(g.DataPoint({'xB': x, 'Q2': Q2})))
         hpt, hpoint = used_point({'x': x, 'eta': 0, 't': 0, 'Q2': Q2})
+        if hist:
+            hpoint = dict(hpoint, calls_before_on_the_same_theory_object=hist)
         hx = th.Hx(hpt)
-        want = th.dis_charge * x * float(hx[0])
+        # the charge factor of the singlet: the mean squared quark charge, (4/9+1/9+1/9)/3 and (4/9+1/9+1/9+4/9)/4 (not the
+        # object's own attribute)
+        charge = {3: 2.0 / 9.0, 4: 5.0 / 18.0}[nf]
+        if abs(th.dis_charge - charge) > 1e-15:
+            viol('F2-LO/charge-factor', 'dis_charge = %r for nf=%d, the mean squared charge of the active flavours is %r' % (
+                th.dis_charge, nf, charge), kw, par, dict(xB=x, Q2=Q2), 'dis_charge')
+        want = charge * x * float(hx[0])
         gpd = np.einsum('fa,ja->jf', FROT_X, th.H(0, 0))
-        S = th.dis_charge * x * j2x_scale(th, x, 0, Q2, None, gpd, None)[0]
+        S = charge * x * j2x_scale(th, x, 0, Q2, None, gpd, None)[0]
         d = abs(f2 - want)
-        track('LO F2 vs charge·x·Hx[0], relative', sdiv(d, abs(f2)))
+        if f2 != 0:                  # ns = 0 at the input scale: F2 is exactly 0 on both sides
+            track('LO F2 vs charge·x·Hx[0], relative', d / abs(f2))
         rep.case('oracle.F2-LO', (scheme, nf, x, Q2), sample=dict(theory=kw, x=x, Q2=Q2, F2=f2, charge_x_Sigma=want))
         if not d <= 1e-10 * abs(f2) + 1e-13 * S:
-            viol('F2-LO/' + scheme, 'LO F2 = %.12g but dis_charge·x·Hx[0] = %.12g at x=%g, Q2=%g (nf=%d)' % (f2, want, x, Q2, nf),
+            viol('F2-LO/' + scheme, 'LO F2 = %.12g but charge·x·Hx[0] = %.12g at x=%g, Q2=%g (nf=%d, charge factor %.6g)' % (f2, want, x, Q2, nf, charge),
                  kw, par, dict(hpoint, xB=x), 'DISF2')
 
     # 4d. momentum sum and LO DGLAP solution of the second moments; 4e. gluon-only input radiates quarks
     gl_u, gl_w = p_roots(32)
 
     def second_moments(th, Q2, n=32):
-        """(∫ x Σ dx, ∫ x g dx) from Hx at eta = t = 0 with x = u^5 (Gauss-Legendre in u on [0, 1])"""
-        u = (gl_u + 1) / 2
-        w = gl_w / 2
+        """(∫ x Σ dx, ∫ x g dx) from Hx at eta = t = 0 with x = u^5 (n-point Gauss-Legendre in u on [0, 1])"""
+        uu, ww = (gl_u, gl_w) if n == 32 else p_roots(n)
+        u = (uu + 1) / 2
+        w = ww / 2
         mq = mg = 0.0
         for ui, wi in zip(u, w):
             xx = ui ** 5
@@ -647,10 +692,104 @@ def run(rep):
                      'momentum %.3g — no quarks radiated' % (Q2, list(h1), list(h0), mq), kw, par,
                      dict(x=xs, eta=0, t=0, Q2=Q2), 'Hx')
 
+    # 4d'. total momentum at NLO msbar (1.5 s per Hx: 12 nodes — 4e-6 of quadrature error on 0.6 — and one case in the
+    #      quick tier; 16 nodes and several cases in the thorough tier)
+    from gepard import evolution
+    nodes_slow = 12 if quick else 16
+    for i in range(1 if quick else 4):
+        nf = rng.choice([3, 4])
+        th, kw = mk_theory(1, 'msbar', nf=nf)
+        par = slim(random_pars(rng, al0g_max=1.3))
+        th.parameters.update(par)
+        Q2 = 4.0 * ((1 + 10 ** rng.uniform(-2.5, -1.3)) if i % 4 == 3 else 10 ** rng.uniform(0.2, 2))
+        mq, mg = second_moments(th, Q2, n=nodes_slow)
+        tot = mq + mg
+        # the second moments the package's own pieces give WITHOUT the x-space transform: conformal moment j = 1 of the input
+        # times the evolution operator at j = 1 — with the operator calc_j2x uses (process class 'DVCS': in msbar it carries the
+        # non-diagonal term) and with the diagonal operator (process class 'DIS')
+        pred = {}
+        try:
+            thj, _ = mk_theory(1, 'msbar', nf=nf)
+            thj.parameters.update(par)
+            thj.jpoints = np.array([1.0 + 0j])
+            hj = thj.H(0, 0)[0][:2]
+            asf, _ = couplings(th, Q2)
+            for pc in ('DVCS', 'DIS'):
+                Ej = evolution.evolop(th, np.array([1.0 + 0j]), Q2, pc)[0]
+                pred[pc] = float(((Ej[0] + asf * Ej[1]) @ hj).sum().real)
+        except Exception as e:       # the signature is an aid for classifying a failure, never a verdict
+            rep.notes.append('momentum at NLO msbar: the j=1 prediction could not be formed (%r)' % (e,))
+        track('momentum |∫x(Σ+g) - 0.6| (p=1 msbar; see known_findings)', abs(tot - 0.6))
+        if pred:
+            track('momentum p=1 msbar: |x-space total - (operator incl. non-diagonal term at j=1)·moments|', abs(tot - pred['DVCS']))
+            track('momentum p=1 msbar: |diagonal operator at j=1 ·moments - 0.6|', abs(pred['DIS'] - 0.6))
+        rep.case('oracle.momentum', (1, 'msbar', nf, Q2, par['ns'], par['al0s'], par['al0g']),
+                 sample=dict(theory=kw, parameters=par, Q2=Q2, quark=mq, gluon=mg, total=tot, j1_moment_prediction=pred))
+        if not abs(tot - 0.6) <= 1e-4:
+            # known finding momentum/msbar-nlo/forward-nd-term: matched only when the whole deficit is the non-diagonal term of
+            # the msbar NLO operator at j = 1 (x-space total = the package's own j=1 numbers with that operator, and the
+            # diagonal operator conserves momentum); any other loss of momentum gets the ordinary key
+            sig = bool(pred) and abs(tot - pred['DVCS']) <= 1e-4 and abs(pred['DIS'] - 0.6) <= 1e-6
+            viol('momentum/msbar-nlo/forward-nd-term' if sig else 'momentum/p=1/msbar',
+                 'total momentum ∫x(Σ+g)dx = %.6g at Q2=%g, but 0.6 at the input scale (quark %.6g, gluon %.6g); p=1 msbar nf=%d ns=%g '
+                 'al0s=%g al0g=%g; j=1 moments times the operator: %s' % (tot, Q2, mq, mg, nf, par['ns'], par['al0s'], par['al0g'], pred),
+                 kw, par, dict(eta=0, t=0, Q2=Q2, x='u^5, u = %d Gauss-Legendre nodes on [0,1]' % nodes_slow), 'Hx')
+
+    # 4f. ONE object of a class that combines the GPD model with CFFs, DIS and DVMP (class Th) evaluates several observables
+    #     at the same Q2, in either order: each value equals what a fresh object gives for that observable alone
+    ops = {'cff': lambda o, q: [float(v) for v in o.cff(g.DataPoint({'xi': q['x'], 't': q['t'], 'Q2': q['Q2']}))[:4]],
+           'DISF2': lambda o, q: [float(o.DISF2(g.DataPoint({'xB': q['x'], 'Q2': q['Q2']})))],
+           'Hx': lambda o, q: [float(v) for v in o.Hx(g.DataPoint({'x': q['x'], 'eta': 0, 't': 0, 'Q2': q['Q2']}))],
+           'tff': lambda o, q: [float(v) for v in o.tff(q['x'], q['t'], q['Q2'])[:2]]}
+    orders = [('cff', 'DISF2'), ('DISF2', 'cff'), ('cff', 'Hx', 'DISF2'), ('tff', 'DISF2', 'cff'), ('DISF2', 'tff', 'cff'),
+              ('cff', 'DISF2', 'cff', 'DISF2'), ('DISF2', 'cff', 'tff'), ('tff', 'cff', 'DISF2')]
+    for i in range(16 if quick else 200):
+        p, scheme = combos[i % 3] if (quick or i % 25) else combos[3]
+        seq = orders[i % len(orders)] if i < 2 * len(orders) else rng.choice(orders)
+        nf = 4 if 'tff' in seq else rng.choice([3, 4])
+        Q02 = 4.0 if i % 2 == 0 else rng.uniform(1.5, 6)
+        kw = dict(p=p, scheme=scheme, nf=nf, Q02=Q02)
+        par = random_pars(rng)
+        q = dict(x=10 ** rng.uniform(-4, math.log10(0.3)), t=rng.uniform(-1, 0),
+                 Q2=Q02 if i % 3 == 0 else Q02 * 10 ** rng.uniform(0, 1.3))
+        rep.hist('shared-object.sequence', '→'.join(seq))
+        try:
+            th = Th(**kw)
+            th.parameters.update(par)
+            got = [(op, ops[op](th, q)) for op in seq]
+            for k_, (op, v) in enumerate(got):
+                fresh = Th(**kw)
+                fresh.parameters.update(par)
+                ref = ops[op](fresh, q)
+                rep.case('oracle.shared-object', (p, scheme, nf, seq, k_, q['x'], q['Q2']),
+                         sample=dict(theory=kw, point=q, sequence=seq, call=k_ + 1, value=v, fresh_object=ref))
+                dev = max(abs(a - b) / max(abs(a), abs(b), 1e-300) for a, b in zip(v, ref))
+                track('shared object vs fresh object, relative', dev)
+                if not dev <= 1e-12:
+                    extra = ''
+                    if op == 'DISF2' and p == 0:
+                        sig_ = th.dis_charge * q['x'] * ops['Hx'](fresh, q)[0]
+                        extra = '; LO: dis_charge·x·Hx[0] = %.12g' % sig_
+                    viol('shared-object/%s' % op, '%s at x=%g, Q2=%g returns %s on an object that had evaluated %s at the same Q2 before, '
+                         'but %s on a fresh object (p=%d %s nf=%d)%s' % (op, q['x'], q['Q2'], v, list(seq[:k_]), ref, p, scheme, nf, extra),
+                         kw, par, dict(q, xB=q['x'], xi=q['x']), 'cff / DISF2 / tff / Hx in the order %s' % (list(seq[:k_ + 1]),),
+                         sequence=list(seq[:k_ + 1]), fresh_object=ref)
+                    break
+        except Exception as e:
+            rep.violation('shared-object/exception/' + type(e).__name__, 'sequence %s on one object raised %r (theory %s, point %s)' % (
+                list(seq), e, kw, q), dict(theory=kw, parameters=par, point=q, sequence=list(seq)), found_input=in_real_code(e))
+
     rep.coverage['worst_oracle_values'] = {k: float('%.3g' % v) for k, v in sorted(worst_o.items())}
 
     # ---------------------------------------------------------------- model vs code
-    out = common.run_driver(lines)
+    try:
+        out = common.run_driver(lines)
+    except common.ModelUnavailable as ex:
+        # the oracle streams above evaluated the property on the real code; what is lost is the correspondence
+        rep.coverage['model_unavailable'] = str(ex)[:500]
+        rep.violation('model-unavailable', 'the executable model of C04 could not be built (%s): the model-vs-code comparison did '
+                      'not run; the oracle streams did' % str(ex)[:300], dict(detail=str(ex)[:1000]), found_input=False)
+        out = []
     worst = {}
     for line, m, o in zip(lines, meta, out):
         if o == 'bad-op':
@@ -687,6 +826,11 @@ def run(rep):
         'momentum and second moments: 32-point Gauss-Legendre in u=x^(1/5) on [0,1] of x·Hx[0] and Hx[1]; absolute tolerance '
         '1e-4 on moments that add up to 0.6 (measured on the current tree: ≤2e-6; it covers the quadrature of the x-integral, '
         'the contour sum at x>0.3, and at p=1 the tiny violation of the NLO sum rule by the package\'s γ1(n=2), cf. C03)',
+        'momentum at NLO msbar: 12-point (quick) / 16-point (thorough) rule in u, quadrature error 4e-6 / 1e-6 (measured against the '
+        '32-point rule on csbar), same tolerance 1e-4; a failure is filed under the known finding momentum/msbar-nlo/forward-nd-term only '
+        'when the x-space total equals, to 1e-4, (E0 + as·E1)(j=1, process class DVCS)·H(j=1) built from the package\'s own operator and '
+        'moments AND the diagonal operator (process class DIS) gives 0.6 to 1e-6 — i.e. the whole deficit is the non-diagonal term',
+        'shared object (one object: cff / DISF2 / tff / Hx at one Q2 in several orders) vs fresh objects: 1e-12 relative (same arithmetic; observed 0)',
         'LO F2 vs dis_charge·x·Hx[0]: 1e-10 relative + 1e-13 of the summed magnitudes (identity of sums, theorem f2_LO_eq)']
     rep.notes += ['oracle.* streams evaluate the property on the real code against closed forms; they carry the quadrature '
                   'accuracy that no theorem states, and support — not replace — the theorems of Props/C04.lean',
